@@ -19,8 +19,13 @@ func vh_fast_retransmit() {
 	head := s.writeList.Front()
 	vassume(head != nil && head.data.Size() > 0)
 	s.dupAckCount = vnChoice("dupacks", 3)
-	// fr (recovery state) is as newSender left it: not active, recover point just below sndUna
+	// not in recovery; the recover point is anywhere below sndUna: as newSender left it, or as
+	// an earlier, completed recovery left it (recovery_exit shows that leaving recovery puts it
+	// below everything still unacknowledged)
 	vassert(!s.fr.active, "a new sender is not in recovery")
+	if vnBool("after_recovery") {
+		s.fr.last = s.sndUna.Add(seqnum.Size(0) - seqnum.Size(1+vnChoice("recover_back", 3)))
+	}
 	headData := append([]byte{}, head.data.ToView()...)
 	seg := newSegmentFromView(&c.e.route, c.e.id, buffer.View{})
 	seg.sequenceNumber = c.e.rcv.rcvNxt
@@ -276,4 +281,33 @@ func vh_partial_ack_recovery() {
 	d := vhDecode(c.net.Sent[0])
 	vassert(seqnum.Value(d.seq) == ack && len(d.payload) == len(want) && vhConsistent(ack, d.payload), "the retransmitted segment is the new earliest unacknowledged one, not the one just acknowledged")
 	vreach("partial-ack")
+}
+
+// A full ACK ends fast recovery and leaves the sender eligible for the next fast retransmit:
+// the recover point ends up below everything that can still be reported lost, so three
+// duplicate ACKs for the very next segment sent are not mistaken for stale ones.
+func vh_recovery_exit() {
+	vclockFreeze()
+	c := vhEP(1<<20, 1<<20)
+	s := c.vhSender()
+	first := s.writeList.Front()
+	vassume(first != nil && first.data.Size() > 0)
+	vassume(s.sndUna != s.sndNxt)
+	s.fr.active = true
+	s.fr.first = s.sndUna
+	s.fr.last = s.sndNxt - 1
+	s.fr.maxCwnd = s.sndCwnd + s.outstanding
+	s.dupAckCount = 3
+	nxt := s.sndNxt
+	seg := newSegmentFromView(&c.e.route, c.e.id, buffer.View{})
+	seg.sequenceNumber = c.e.rcv.rcvNxt
+	seg.ackNumber = nxt // acknowledges everything sent so far
+	seg.flags = flagAck
+	seg.window = s.sndWnd
+	s.handleRcvdSegment(seg)
+	vassert(!s.fr.active && s.dupAckCount == 0, "an ACK for everything sent during recovery ends it")
+	vassert(s.sndUna == nxt, "the full ACK advances sndUna")
+	vassert(s.fr.last.LessThan(s.sndUna), "after recovery the recover point lies below every byte still to be acknowledged, so the next loss is again repaired by fast retransmit")
+	vassert(!s.sndNxt.LessThan(s.sndUna), "sndNxt stays at or ahead of sndUna")
+	vreach("recovery-exit")
 }
